@@ -1,5 +1,5 @@
 CHECKS = [
-    entry("C01", "collector",
+    entry("C01", "collector", crashcap=True,
           technique="property-based testing (rapid): generated span/tick/reload/eject schedules on the real collector in a testing/synctest bubble; all-or-none oracle per trace with rename-and-retry",
           quick=dict(checks=700, budget_s=70),
           thorough=dict(checks=8000, shards=16, budget_s=540),
